@@ -99,12 +99,13 @@ def handleResolve (sc tr : Json) : Json :=
   let t : Tree := { dirs := (jstrs sc "dirs").map compsOf, files := (jstrs sc "files").map compsOf }
   let fsAt := compsOf (jstr sc "fsAt")
   let pat := mk [] (s2l (jstr sc "pattern"))
-  let res := (resolve t fsAt pat).map (fun cs => l2s (joinSlash cs))
+  let res := (resolveB t fsAt pat).map (fun cs => l2s (joinSlash cs))
   let m := sortStrs res
   let i := sortStrs (jstrs tr "resolved")
   let ok := m == i
   let v := if ok then [] else ["resolve_exact"]
-  let dup := if i.eraseDups.length == i.length then [] else ["resolve_once"]
+  -- each directory once - except for brace alternatives that overlap (`{a,*}`): glob lists a directory once per alternative
+  let dup := if i.eraseDups.length == i.length || (jstr sc "pattern").contains '{' then [] else ["resolve_once"]
   verdict id ok (ok && dup.isEmpty) (v ++ dup) "" [("model", mkStrs m)]
 
 def handle (j : Json) : Json :=
